@@ -1,141 +1,141 @@
 NOT_YET = {}
-CHECKS["C16"] = dict(
-    level="fault_enumeration",
-    technique="runtime monitoring: enumerated upload-failure patterns x interleaving shapes against the real RuntimeRecorder with a conservation/unique-id oracle; race detector stress; porcupine linearizability check of recorded histories",
-    text="All success/failure patterns of upload attempts up to length 6 (8 thorough) x 3 record/upload interleaving shapes are executed on the real billstat.RuntimeRecorder with a scripted uploader; every batch handed to the uploader and the final drain are compared with a counting model (delivered + held == recorded, metadata of the most recent call identified by unique per-call metadata). Concurrent writers vs refresher run under the race detector and small concurrent histories are checked with porcupine against a counter model.",
-    note="Trusted: the scripted uploader stands in for backendpb (reads the batch only during Upload); one refresher at a time. Holds for the executions produced, not for all schedules.",
-    ref="2/C16",
+CHECKS['C16'] = dict(
+    level='fault_enumeration',
+    technique='runtime monitoring: enumerated upload-failure patterns x interleaving shapes against the real RuntimeRecorder with a conservation/unique-id oracle; race detector stress; porcupine linearizability check of recorded histories',
+    text='All success/failure patterns of upload attempts up to length 6 (8 thorough) x 3 record/upload interleaving shapes are executed on the real billstat.RuntimeRecorder with a scripted uploader; every batch handed to the uploader and the final drain are compared with a counting model (delivered + held == recorded, metadata of the most recent call identified by unique per-call metadata). Concurrent writers vs refresher run under the race detector and small concurrent histories are checked with porcupine against a counter model. Extended: the real backendpb.BillStat over loopback gRPC (six stream kinds, overlapping and concurrent uploads), hundreds of devices with per-call accept patterns, billed time behind a real TCP listener and on overlapping DoQ streams (dnssvc handler chain).',
+    note='The scripted uploader reads the batch only during Upload (as backendpb does); the real backendpb uploader is driven separately over loopback gRPC. A backend that answers OK before reading the whole stream is outside the fault model (observed, not judged). Holds for the executions produced, not for all schedules.',
+    ref='2/C16',
 )
-CHECKS["C02"] = dict(
-    level="exploration",
-    technique="runtime monitoring: real filterstorage.Default + hashprefix filters fed by a local HTTP fixture, verdicts and written messages (full dnssvc stack) compared with a precedence evaluator written from the statement; winner x loser matrix gated",
-    text="Seeded worlds of rule lists (grammar with known meaning), custom rules, blocked services, safe-search and hash-prefix lists are loaded into the real filter storage; for every configuration x probe the verdict at ForConfig(...).FilterRequest/FilterResponse and the message actually written behind the real middleware stack (per-profile blocking mode and TTL, upstream marker records) are compared with a ~60-line evaluator of the documented precedence. Holds for the configurations and probes generated (pairs of overlapping sources are counted and gated).",
+CHECKS['C02'] = dict(
+    level='exploration',
+    technique='runtime monitoring: real filterstorage.Default + hashprefix filters fed by a local HTTP fixture, verdicts and written messages (full dnssvc stack) compared with a precedence evaluator written from the statement; winner x loser matrix gated',
+    text='Seeded worlds of rule lists (grammar with known meaning), custom rules, blocked services, safe-search and hash-prefix lists are loaded into the real filter storage; for every configuration x probe the verdict at ForConfig(...).FilterRequest/FilterResponse and the message actually written behind the real middleware stack (per-profile blocking mode and TTL, upstream marker records) are compared with a ~60-line evaluator of the documented precedence. Holds for the configurations and probes generated (pairs of overlapping sources are counted and gated). Extended: TTL 0/1 profiles, qtype-alias cache histories with a cache-off twin, custom rules as delivered by the real backendpb/profiledb (full vs incremental sync), $client modifiers with named devices in both orders, four-label listed hosts.',
     note="Trusted: urlfilter's semantics inside the generated grammar; hash-prefix result caches are cleared per probe (their cross-requester leak is C12's subject). Exploration of a seeded sample, not all inputs.",
-    ref="2/C02",
+    ref='2/C02',
 )
-CHECKS["C03"] = dict(
-    level="exploration",
-    technique="runtime monitoring: requests over the product transport x identifier channel x credentials x database state injected into the real dnssvc stack (MapDB and real profiledb), attribution observed at the terminal handler / billing / query log and judged by a decision table written from the statement; real DoH/DoT listeners confirm the RequestInfo the servers build",
-    text="About 40k cases (quick) over 16 servers, 20 devices, every identification channel and credential state; the security direction (attributed => entitled) is asserted on every case, the converse only where the statement fixes it. A subset goes through real HTTPS/TLS listeners.",
+CHECKS['C03'] = dict(
+    level='exploration',
+    technique='runtime monitoring: requests over the product transport x identifier channel x credentials x database state injected into the real dnssvc stack (MapDB and real profiledb), attribution observed at the terminal handler / billing / query log and judged by a decision table written from the statement; real DoH/DoT listeners confirm the RequestInfo the servers build',
+    text='About 40k cases (quick) over 16 servers, 20 devices, every identification channel and credential state; the security direction (attributed => entitled) is asserted on every case, the converse only where the statement fixes it. A subset goes through real HTTPS/TLS listeners. Extended: ClientHello ground truth for the SNI channel, Host-header cases, databases restored from the profile file cache, unusable stored hashes, CreateAutoDevice held while a sync lands, overlapping non-canonical human IDs.',
     note="Trusted: the harness's decision table; devices without a password hash accept any password (recorded assumption). Finite product, seeded extras.",
-    ref="2/C03",
+    ref='2/C03',
 )
-CHECKS["C11"] = dict(
-    level="exploration",
-    technique="runtime monitoring: real hashprefix Storage/Matcher/Filter and the preservice path of the full stack against an independent SHA-256/public-suffix model; value-based concurrent reset/lookup oracle",
-    text="Generated lists (comments, duplicates, CRLF, public-suffix and 4-label boundaries, 2-byte prefix collisions) across resets and refreshes; ~300k host probes and prefix queries per quick run are compared for soundness and completeness with a model written from the statement; TXT prefix queries are also driven through the real middleware stack.",
+CHECKS['C11'] = dict(
+    level='exploration',
+    technique='runtime monitoring: real hashprefix Storage/Matcher/Filter and the preservice path of the full stack against an independent SHA-256/public-suffix model; value-based concurrent reset/lookup oracle',
+    text='Generated lists (comments, duplicates, CRLF, public-suffix and 4-label boundaries, 2-byte prefix collisions) across resets and refreshes; ~300k host probes and prefix queries per quick run are compared for soundness and completeness with a model written from the statement; TXT prefix queries are also driven through the real middleware stack. Extended: pooled TXT records with disposal, repeated prefixes with listed names brute-forced into special buckets, fault-then-clean histories in replacement-host mode, file:// lists with old mtime and a content check after every refresh.',
     note="Trusted: x/net/publicsuffix data (cut-off logic re-implemented); hosts under non-ICANN suffixes follow the documented 'full private space' behaviour.",
-    ref="2/C11",
+    ref='2/C11',
 )
-CHECKS["C15"] = dict(
-    level="exploration",
-    technique="runtime monitoring: per-request trace of query-log/billing side effects behind the real dnssvc stack (scripted filter verdicts, all attribution/drop classes, 32-goroutine phase under the race detector) + offline checker of the real querylog.FileSystem output (parse every line, multiset of ids, field model from doc/querylog.md)",
-    text="Every request's log entry and billing record must exist iff the statement allows it and must describe that request; the log file written by 32 concurrent writers must consist solely of complete single-line JSON objects, one per entry, with the documented fields.",
-    note="Trusted: doc/querylog.md as the field model; scripted filter storage instead of real lists (the real lists are C02's subject).",
-    ref="2/C15",
+CHECKS['C15'] = dict(
+    level='exploration',
+    technique='runtime monitoring: per-request trace of query-log/billing side effects behind the real dnssvc stack (scripted filter verdicts, all attribution/drop classes, 32-goroutine phase under the race detector) + offline checker of the real querylog.FileSystem output (parse every line, multiset of ids, field model from doc/querylog.md)',
+    text="Every request's log entry and billing record must exist iff the statement allows it and must describe that request; the log file written by 32 concurrent writers must consist solely of complete single-line JSON objects, one per entry, with the documented fields. Extended: real filter storage with six blocked services, backend model with modification times and restart, deleted profiles on every identification path, extended rcodes, specially treated request names.",
+    note='Trusted: doc/querylog.md as the field model; Parts 1-2 script the filter verdicts, Parts 3-4 use the real filter storage and the real profiledb.',
+    ref='2/C15',
 )
-CHECKS["C17"] = dict(
-    level="fault_enumeration",
-    technique="runtime monitoring: seeded up/down/garbage/silent schedules of scripted stub upstreams against the real forward.Handler with explicit health-check rounds; reference fail-over state machine with interval arithmetic for the back-off; race detector on a concurrent query/refresh phase",
-    text="288 schedules x 14 steps (quick) over M in 1..3 mains and F in 0..2 fallbacks, 11 per-step stub behaviours, back-off in {0, 450ms, 750ms, 1h}; every query is matched against the set of legitimate (main, fallback, outcome) triples of the model using the stubs' own request logs and self-identifying answers.",
+CHECKS['C17'] = dict(
+    level='fault_enumeration',
+    technique='runtime monitoring: seeded up/down/garbage/silent schedules of scripted stub upstreams against the real forward.Handler with explicit health-check rounds; reference fail-over state machine with interval arithmetic for the back-off; race detector on a concurrent query/refresh phase',
+    text="288 schedules x 14 steps (quick) over M in 1..3 mains and F in 0..2 fallbacks, 11 per-step stub behaviours, back-off in {0, 450ms, 750ms, 1h}; every query is matched against the set of legitimate (main, fallback, outcome) triples of the model using the stubs' own request logs and self-identifying answers. Extended: tcp/udp/any networks with pooled-connection faults (extra message once), F=0 schedules, TC + foreign question, context-cut probes, slow calls judged by outcome, flip phase under concurrent queries, idle-pool overflow burst, production ForwardMetricsListener with a mutex-blocked-refresh watchdog.",
     note="Trusted: the stubs' logs; back-off boundary cases are counted as ambiguous, never judged; a SERVFAIL reply from a main is relayed (statement), not failed over.",
-    ref="2/C17",
+    ref='2/C17',
 )
-CHECKS["C01"] = dict(
-    level="exploration",
-    technique="runtime monitoring: the real dnsserver listeners of all transports (UDP, TCP, DoT, DoH h1/h2/plain GET+POST, JSON API, DoQ, DNSCrypt UDP+TCP; h3 thorough) driven by raw byte-exact clients; per-response oracle against the handler invoked directly, cross-transport comparison, hostile-input expectation table computed from the bytes; race detector",
-    text="Generated well-formed queries x 16 client paths must each get exactly one response with the request's ID and question and the handler's rcode/records (modulo documented truncation/padding/keep-alive/OPT echo); random bytes, truncations at every offset and header mutations must get the documented FORMERR/NOTIMP/drop treatment, never another ID/question, and a liveness probe follows every hostile batch.",
-    note="Trusted: the expectation table written from the servers' documentation; UDP requests <= 512 bytes; DoQ answering response-bit messages with SERVFAIL is accepted as documented. ~15k (input, path) pairs per quick run.",
-    ref="2/C01",
+CHECKS['C01'] = dict(
+    level='exploration',
+    technique='runtime monitoring: the real dnsserver listeners of all transports (UDP, TCP, DoT, DoH h1/h2/plain GET+POST, JSON API, DoQ, DNSCrypt UDP+TCP; h3 thorough) driven by raw byte-exact clients; per-response oracle against the handler invoked directly, cross-transport comparison, hostile-input expectation table computed from the bytes; race detector',
+    text="Generated well-formed queries x 16 client paths must each get exactly one response with the request's ID and question and the handler's rcode/records (modulo documented truncation/padding/keep-alive/OPT echo); random bytes, truncations at every offset and header mutations must get the documented FORMERR/NOTIMP/drop treatment, never another ID/question, and a liveness probe follows every hostile batch. Extended (rounds 3-7): production prometheus metrics listener on all benches; pipeline-limit benches; unsized/chunked DoH POST, split stream writes, long-lived DoQ/TCP/DoT/DoH connections under a handle-timeout request context, datagrams beyond the read buffer, 10 300 parked handlers; a production-pipeline phase with the dnssvc handler chain behind every transport (17 EDNS forms x 9 qclasses x 3 upstream behaviours, exactly-one-response and cross-transport oracle).",
+    note="Trusted: the expectation table written from the servers' documentation; a UDP datagram longer than the read buffer is judged by its first 512 bytes; DoQ answering response-bit messages with SERVFAIL is accepted as documented. ~36k evaluations per quick run.",
+    ref='2/C01',
 )
-CHECKS["C04"] = dict(
-    level="exploration",
+CHECKS['C04'] = dict(
+    level='exploration',
     technique="runtime monitoring: simple and ECS cache middlewares around a scripted upstream with per-request 'upstream called' tokens; warm/fresh differential, key-separation pairs, cacheability classes, parallel age sweep judged by interval arithmetic on monotonic timestamps; race detector on the concurrent phase",
-    text="Hits must equal fresh answers (TTL masked), never cross (name, qtype, qclass, DO, subnet/location) keys, never carry a TTL above the rounded remaining lifetime at the lenient end of the recorded age interval, never be served after expiry, and uncacheable classes must reach the upstream every time.",
-    note="Both caches read the wall clock: ages are real sleeps (1-3 s TTLs, hundreds of entries in parallel); cases straddling a rounding boundary are counted ambiguous. SERVFAIL lifetime (30 s) is not waited for, only its TTL cap.",
-    ref="2/C04",
+    text='Hits must equal fresh answers (TTL masked), never cross (name, qtype, qclass, DO, subnet/location) keys, never carry a TTL above the rounded remaining lifetime at the lenient end of the recorded age interval, never be served after expiry, and uncacheable classes must reach the upstream every time. Extended: production pool wiring (shared Cloner/Constructor/Disposer), caches behind real UDP+TCP servers, sibling location subnets under unaligned prefixes, SERVFAIL lifetimes in override configurations (ages beyond 30 s are now waited for in the background).',
+    note='Both caches read the wall clock: ages are real sleeps (1-3 s TTLs, hundreds of entries in parallel; SERVFAIL cases up to ~32 s in the background); cases straddling a rounding boundary are counted ambiguous.',
+    ref='2/C04',
 )
-CHECKS["C05"] = dict(
-    level="exploration",
+CHECKS['C05'] = dict(
+    level='exploration',
     technique="runtime monitoring: recorded histories through the real stack with the real ECS cache, unique upstream payload per call, wire-crafted ECS options, GeoIP fake with recognisable coarse subnets; order-free 'may serve' model replayed over each history; race detector on the concurrent variant",
-    text="Every upstream request's ECS must be /0 or the GeoIP coarse subnet of the client's (or its option's) location and family; /0 clients only get /0-obtained answers; scoped answers are reused only within the same subnet+family (incl. sibling subnets differing in a partial byte); the response echoes the client's own prefix with scope = source length iff the query had a valid option; malformed options get FORMERR.",
-    note="Trusted: the scripted upstream and GeoIP fake; options the DNS library refuses to parse are injected as structures. 150 sequential + 40 concurrent histories per quick run.",
-    ref="2/C05",
+    text="Every upstream request's ECS must be /0 or the GeoIP coarse subnet of the client's (or its option's) location and family; /0 clients only get /0-obtained answers; scoped answers are reused only within the same subnet+family (incl. sibling subnets differing in a partial byte); the response echoes the client's own prefix with scope = source length iff the query had a valid option; malformed options get FORMERR. Extended: real geoip.File (incl. refresh race), sibling subnets, CNAME-rewrite path, and a listener-level phase with raw wire ECS forms on 8 transports (transport errors are retried and otherwise ambiguous, never verdicts).",
+    note="Trusted: the scripted upstream and (outside the real-GeoIP phases) the GeoIP fake; forms the DNS library cannot decode are judged by the transport's documented reaction. 190 histories + 500 listener cases per quick run.",
+    ref='2/C05',
 )
-CHECKS["C07"] = dict(
-    level="exploration",
-    technique="runtime monitoring: (1) sequential-vs-32-goroutine differential of packed responses through the real stack (real filter storage, hash-prefix filters, ECS cache, production Cloner, Dispose after write) under the race detector; (2) shadow-heap monitor over seeded Clone/Dispose/constructor histories re-checking every live message after every step",
-    text="Each concurrent response must be byte-identical to the same request processed alone (TTL decay of cache hits masked by interval arithmetic); every live clone must keep its snapshot through arbitrary clone/dispose sequences over all RR types, SVCB parameters and EDNS options, equal its original and share no memory with it.",
-    note="Trusted: the upstream is a pure function of the question; hash-prefix names are pinned to one profile. sync.Pool behaviour makes reuse probabilistic, directed probes are retried.",
-    ref="2/C07",
+CHECKS['C07'] = dict(
+    level='exploration',
+    technique='runtime monitoring: (1) sequential-vs-32-goroutine differential of packed responses through the real stack (real filter storage, hash-prefix filters, ECS cache, production Cloner, Dispose after write) under the race detector; (2) shadow-heap monitor over seeded Clone/Dispose/constructor histories re-checking every live message after every step',
+    text='Each concurrent response must be byte-identical to the same request processed alone (TTL decay of cache hits masked by interval arithmetic); every live clone must keep its snapshot through arbitrary clone/dispose sequences over all RR types, SVCB parameters and EDNS options, equal its original and share no memory with it. Extended: scripted cache-population histories, simple-cache recycling, shared rule lists and blocked services on the real filter storage under concurrent profiles, real listeners under bursts, letter-case spellings.',
+    note='Trusted: the upstream is a pure function of the question; hash-prefix names are pinned to one profile. sync.Pool behaviour makes reuse probabilistic, directed probes are retried.',
+    ref='2/C07',
 )
-CHECKS["C09"] = dict(
-    level="exploration",
-    technique="runtime monitoring: exhaustive virtual-time enumeration of RequestCounter.Add against a timestamp-log model (exhaustive: true for that layer), real Backoff scenarios judged by interval arithmetic with guard bands, full-stack profile/global/protocol gating; race detector and porcupine on concurrent Add",
-    text="All non-decreasing timestamp sequences of length 8 over boundary grids for limits 1-4 (72k sequences) plus long seeded sequences; Backoff: limit, back-off entry/exit incl. hits spread over several periods, allow-list, ANY refusal, every subnet key length, response-size weighting, counter-entry expiry; stack: drop = handler not run and nothing written, DoT never limited, profile limit replaces the global one.",
-    note="Backoff and the profile limiter read the wall clock: time-dependent verdicts only when they hold for every instant compatible with the recorded intervals (5 ms guard band); an event exactly one interval old may count either way (consistently).",
-    ref="2/C09",
+CHECKS['C09'] = dict(
+    level='exploration',
+    technique='runtime monitoring: exhaustive virtual-time enumeration of RequestCounter.Add against a timestamp-log model (exhaustive: true for that layer), real Backoff scenarios judged by interval arithmetic with guard bands, full-stack profile/global/protocol gating; race detector and porcupine on concurrent Add',
+    text='All non-decreasing timestamp sequences of length 8 over boundary grids for limits 1-4 (72k sequences) plus long seeded sequences; Backoff: limit, back-off entry/exit incl. hits spread over several periods, allow-list, ANY refusal, every subnet key length, response-size weighting, counter-entry expiry; stack: drop = handler not run and nothing written, DoT never limited, profile limit replaces the global one. Extended: limit 0/1, slow handlers with request start times, IPv4-mapped remote addresses, allow-list / profile subnets delivered through the real backendpb clients, and a binary layer (real program: configured period vs duration, dual-stack bind, response weight after truncation/compression).',
+    note='Backoff and the profile limiter read the wall clock: time-dependent verdicts only when they hold for every instant compatible with the recorded intervals (5 ms guard band); an event exactly one interval old may count either way (consistently).',
+    ref='2/C09',
 )
-CHECKS["C10"] = dict(
-    level="exploration",
-    technique="runtime monitoring: real access.Global and access.DefaultProfile inside the real stack with a DNS cache; per-request trace of every downstream side effect and of written responses judged by a membership model from the statement; cold-key twin requests detect caching",
-    text="300 configurations x 60 probes on subnet/ASN/name-rule boundaries (IPv4, IPv6, IPv4-mapped), attributed and anonymous clients over all identification channels: blocked => no response, nil error, zero side effects, nothing cached; not blocked => exactly one response; malformed-ECS / invalid-device-id requests of globally blocked clients must also stay unanswered.",
-    note="Trusted: urlfilter semantics for the rule grammar used (host rules exact, ||d^ suffix); GeoIP fake.",
-    ref="2/C10",
+CHECKS['C10'] = dict(
+    level='exploration',
+    technique='runtime monitoring: real access.Global and access.DefaultProfile inside the real stack with a DNS cache; per-request trace of every downstream side effect and of written responses judged by a membership model from the statement; cold-key twin requests detect caching',
+    text='300 configurations x 60 probes on subnet/ASN/name-rule boundaries (IPv4, IPv6, IPv4-mapped), attributed and anonymous clients over all identification channels: blocked => no response, nil error, zero side effects, nothing cached; not blocked => exactly one response; malformed-ECS / invalid-device-id requests of globally blocked clients must also stay unanswered. Extended: filtering-paused profiles, configuration round trip, delivery through real backendpb + profiledb (zero-length prefixes, partial syncs, restart from cache), real geoip.File with cross-family pairs, real DoH listeners with forged client-address headers.',
+    note='Trusted: urlfilter semantics for the rule grammar used (host rules exact, ||d^ suffix); GeoIP fake.',
+    ref='2/C10',
 )
-CHECKS["C12"] = dict(
-    level="exploration",
-    technique="runtime monitoring: twin real filter storages (result caches live vs cleared before every call) + a storage rebuilt from current content; hook-parked reader straddling a hash refresh; concurrent readers vs refreshes checked per host with porcupine against a version register; race detector",
-    text="Sequential histories of queries from 8 requesters (different blocking modes, TTLs, EDE, EDNS) interleaved with rule-list, hash-list, service, safe-search refreshes and custom-rule updates: verdicts and packed messages must be equal between twins and equal to a from-scratch storage after every refresh; queries started after a refresh returned must never see the previous version.",
-    note="Trusted: version-revealing list contents; collisions of 64-bit cache keys ignored; rule-list/safe-search straddles have no hook and are covered by stress only.",
-    ref="2/C12",
+CHECKS['C12'] = dict(
+    level='exploration',
+    technique='runtime monitoring: twin real filter storages (result caches live vs cleared before every call) + a storage rebuilt from current content; hook-parked reader straddling a hash refresh; concurrent readers vs refreshes checked per host with porcupine against a version register; race detector',
+    text='Sequential histories of queries from 8 requesters (different blocking modes, TTLs, EDE, EDNS) interleaved with rule-list, hash-list, service, safe-search refreshes and custom-rule updates: verdicts and packed messages must be equal between twins and equal to a from-scratch storage after every refresh; queries started after a refresh returned must never see the previous version. Extended: zero-rule versions, refresh window with group and profile clients, concurrent profiles on a shared cached list, qtype pairs mod 256, answer-name case pairs, failed hash refresh on a warm cache.',
+    note='Trusted: version-revealing list contents; collisions of 64-bit cache keys ignored; rule-list/safe-search straddles have no hook and are covered by stress only.',
+    ref='2/C12',
 )
-CHECKS["C14"] = dict(
-    level="exploration",
-    technique="runtime monitoring: real profiledb.Default over a scripted storage vs a map-of-latest-records model; verifhook-parked clean-up goroutines to produce both clean-up/sync orders; restart-from-cache field-by-field reflection comparison; concurrent lookups under the race detector + porcupine; SIGKILL/strace-injected kills during cache store",
-    text="After every sync all four lookups are issued for every key that ever existed; every clean-up is released before and after the next sync (hook hit counts gated); after each full sync a second database opened on the cache file must answer identically with every exported field preserved; killed stores must leave exactly one complete version.",
-    note="Trusted: the scripted Storage stands in for backendpb; crash points at syscall granularity, no power-loss semantics.",
-    ref="2/C14",
+CHECKS['C14'] = dict(
+    level='exploration',
+    technique='runtime monitoring: real profiledb.Default over a scripted storage vs a map-of-latest-records model; verifhook-parked clean-up goroutines to produce both clean-up/sync orders; restart-from-cache field-by-field reflection comparison; concurrent lookups under the race detector + porcupine; SIGKILL/strace-injected kills during cache store',
+    text='After every sync all four lookups are issued for every key that ever existed; every clean-up is released before and after the next sync (hook hit counts gated); after each full sync a second database opened on the cache file must answer identically with every exported field preserved; killed stores must leave exactly one complete version. Extended: protocol-following storage with request sync-time check, failed full syncs, Access.Config() of looked-up profiles, clean-up stress against a re-attaching sync, IP forms across restart, CreateAutoDevice in flight, hand-over syncs under concurrent lookups, one undecodable cache record.',
+    note="Trusted: the scripted Storage follows the backend protocol (decides from the request's sync time) and stands in for backendpb here (C10/C02/C09 drive the real backendpb clients); crash points at syscall granularity, no power-loss semantics.",
+    ref='2/C14',
 )
-CHECKS["C18"] = dict(
-    level="exploration",
-    technique="runtime monitoring: real connlimiter over harness listeners with seeded accept/close/double-close/listener-close schedules, begin/end-marked event log, hysteresis model over all orderings consistent with the marks, quiescent points established by goroutine dumps (no timing verdicts); real TCP/TLS servers with a gated handler for the pipeline bound",
-    text="All (stop, resume) with 1<=stop<=4 x 1-3 listeners x 560 schedules: open+pending never exceeds stop, no accept while stopped, waiters proceed after resume and are released by listener close, a connection is released exactly once; pipelined bursts never exceed n concurrent handler entries per connection and every query is answered once.",
-    note="Progress is decided only at quiescent points (every actor parked in a blocking primitive, confirmed by repeated goroutine dumps); Go runtime wait-reason strings are trusted.",
-    ref="2/C18",
+CHECKS['C18'] = dict(
+    level='exploration',
+    technique='runtime monitoring: real connlimiter over harness listeners with seeded accept/close/double-close/listener-close schedules, begin/end-marked event log, hysteresis model over all orderings consistent with the marks, quiescent points established by goroutine dumps (no timing verdicts); real TCP/TLS servers with a gated handler for the pipeline bound',
+    text="All (stop, resume) with 1<=stop<=4 x 1-3 listeners x 560 schedules: open+pending never exceeds stop, no accept while stopped, waiters proceed after resume and are released by listener close, a connection is released exactly once; pipelined bursts never exceed n concurrent handler entries per connection and every query is answered once. Extended: close-window probes parked at the limiter's own log record, failing inner closes, service-level phases through dnssvc (bind data listen configs, failed TLS handshakes, pipeline-slot time-outs, per-connection concurrency bound on every listener, accept during shutdown).",
+    note='Progress is decided only at quiescent points (every actor parked in a blocking primitive, confirmed by repeated goroutine dumps); Go runtime wait-reason strings are trusted.',
+    ref='2/C18',
 )
-CHECKS["C19"] = dict(
-    level="exploration",
-    technique="runtime monitoring: real websvc linked-IP proxy on loopback with a recording back-end and a raw TCP client (byte-exact request lines/headers, several peer addresses); back-end contact and every forwarded request judged by a model from doc/http.md + RFC 3986",
-    text="30k generated requests (methods, path grammar with dot/encoded/empty/extra segments, absolute-form targets, forged/duplicated/Connection-named forwarding headers): back-end contacted only for the four documented shapes; forwarded path stays under /linkip/ or /ddns/ after normalisation; exactly one X-Connecting-IP equal to the TCP peer; no client-supplied forwarding header values; everything else 404/robots.",
-    note="Requests the HTTP server itself rejects before the handler are judged leniently (back-end untouched only). Targets whose readings disagree are never required to be proxied.",
-    ref="2/C19",
+CHECKS['C19'] = dict(
+    level='exploration',
+    technique='runtime monitoring: real websvc linked-IP proxy on loopback with a recording back-end and a raw TCP client (byte-exact request lines/headers, several peer addresses); back-end contact and every forwarded request judged by a model from doc/http.md + RFC 3986',
+    text='30k generated requests (methods, path grammar with dot/encoded/empty/extra segments, absolute-form targets, forged/duplicated/Connection-named forwarding headers): back-end contacted only for the four documented shapes; forwarded path stays under /linkip/ or /ddns/ after normalisation; exactly one X-Connecting-IP equal to the TCP peer; no client-supplied forwarding header values; everything else 404/robots. Extended: multi-encoded paths, routing-hint headers, six service configurations through websvc.New, IPv6 / dual-stack / zoned peers, accounting of every request the backend ever receives (Refresh/Start/Shutdown exercised).',
+    note='Requests the HTTP server itself rejects before the handler are judged leniently (back-end untouched only). Targets whose readings disagree are never required to be proxied.',
+    ref='2/C19',
 )
-CHECKS["C13"] = dict(
-    level="fault_enumeration",
-    technique="runtime monitoring: real filterstorage.Default + hashprefix filters against scripted raw-TCP HTTP servers with per-request fault scripts (20 fault kinds x 10 targets x round positions), version-revealing list contents; child processes killed by stalled-transfer SIGKILL, strace-injected SIGKILL at renameat/fsync/utimensat/unlinkat/openat/write/close, and seeded random kills; cache directory and restart-with-server-down checked after every round/kill",
-    text="After each fault round the faulted list must behave as its previous complete version, other lists as previous or new, valid entries of a partially invalid index applied, and every cache file must hold bytes of a complete version ever served for it; after each kill every cache file is previous-or-new complete and a new process starts from the cache alone.",
-    note="A body transferred completely with status 200 counts as a complete version even if a content-level validator later rejects it (restart usability is not asserted then; counted in evidence). Crash points at syscall and transfer-chunk granularity; no power-loss semantics (missing fsync invisible).",
-    ref="2/C13",
+CHECKS['C13'] = dict(
+    level='fault_enumeration',
+    technique='runtime monitoring: real filterstorage.Default + hashprefix filters against scripted raw-TCP HTTP servers with per-request fault scripts (20 fault kinds x 10 targets x round positions), version-revealing list contents; child processes killed by stalled-transfer SIGKILL, strace-injected SIGKILL at renameat/fsync/utimensat/unlinkat/openat/write/close, and seeded random kills; cache directory and restart-with-server-down checked after every round/kill',
+    text='After each fault round the faulted list must behave as its previous complete version, other lists as previous or new, valid entries of a partially invalid index applied, and every cache file must hold bytes of a complete version ever served for it; after each kill every cache file is previous-or-new complete and a new process starts from the cache alone. Extended: duplicate index keys, absent index members at permuted positions, overlapping refreshes (one faulted, parked by the list server), cross-content probes.',
+    note='A body transferred completely with status 200 counts as a complete version even if a content-level validator later rejects it (restart usability is not asserted then; counted in evidence). Crash points at syscall and transfer-chunk granularity; no power-loss semantics (missing fsync invisible).',
+    ref='2/C13',
 )
-CHECKS["C08"] = dict(
-    level="exploration",
-    technique="runtime monitoring: real listeners of every transport with a handler whose response size/shape is steered to the byte by the query name; raw clients measure wire lengths and framing (sentinel query after every stream frame, DoQ stream read to FIN); per-cell oracle from the statement",
-    text="6140 cells per quick run (all 1640 boundary cells + seeded sample of a 232k grid: response size x advertised size x configured maximum x EDNS option subsets x own OPT x 15 paths): UDP/DNSCrypt-UDP length <= max(512, min(advertised, configured)), stream/DoH length <= 65535 with a consistent prefix, dropped records => TC and empty answer, OPT echoed with the client's UDP size and version 0, padding/keep-alive only where allowed.",
+CHECKS['C08'] = dict(
+    level='exploration',
+    technique='runtime monitoring: real listeners of every transport with a handler whose response size/shape is steered to the byte by the query name; raw clients measure wire lengths and framing (sentinel query after every stream frame, DoQ stream read to FIN); per-cell oracle from the statement',
+    text="6140 cells per quick run (all 1640 boundary cells + seeded sample of a 232k grid: response size x advertised size x configured maximum x EDNS option subsets x own OPT x 15 paths): UDP/DNSCrypt-UDP length <= max(512, min(advertised, configured)), stream/DoH length <= 65535 with a consistent prefix, dropped records => TC and empty answer, OPT echoed with the client's UDP size and version 0, padding/keep-alive only where allowed. Extended: shared-cloner bench, real ECS-cache handler (incl. upstream OPT options), silent / erroring handlers, configured maximum 0, JSON endpoint in wire format.",
     note="'No response' (packing refused, EMSGSIZE, DoQ keep-alive refusal) is bucketed, never judged. Plain-HTTP DoH counts as DoH for the padding rule. Requests <= 512 bytes.",
-    ref="2/C08",
+    ref='2/C08',
 )
-CHECKS["C20"] = dict(
-    level="exploration",
-    technique="runtime monitoring of the real binary: YAML-tree mutations of the distributed example configuration (every numeric/duration/size/enum/cross-reference field x {0,-1,1,bound+-1,large,missing} + documented cross-field constraints + seeded pairs) started as child processes in a hermetic environment (stub upstreams, gRPC backend, Redis, HTTP lists, certificates) and exercised with a traffic script over all six transports",
-    text="718 configurations per quick run: each is either rejected (non-zero exit, a configuration error that names the offending property, no runtime error) or accepted and then must serve the traffic script without panic / recovered panic / total silence and shut down cleanly; every violation is confirmed by a second execution.",
-    note="Rate limiting by design is not a violation (only the first query of a fresh limited client is required when a rate parameter is mutated); 1 ns / 1 B values are legal positives; interface listeners are omitted from the base configuration. Five parse-level findings (negative sizes rejected without naming the key) are recorded in known_findings.json.",
-    ref="2/C20",
+CHECKS['C20'] = dict(
+    level='exploration',
+    technique='runtime monitoring of the real binary: YAML-tree mutations of the distributed example configuration (every numeric/duration/size/enum/cross-reference field x {0,-1,1,bound+-1,large,missing} + documented cross-field constraints + seeded pairs) started as child processes in a hermetic environment (stub upstreams, gRPC backend, Redis, HTTP lists, certificates) and exercised with a traffic script over all six transports',
+    text='718 configurations per quick run: each is either rejected (non-zero exit, a configuration error that names the offending property, no runtime error) or accepted and then must serve the traffic script without panic / recovered panic / total silence and shut down cleanly; every violation is confirmed by a second execution. Extended: round values next to bounds, missing/null sections, connection-limit serviceability script, enum spellings, structural server-group operator, list operators, backend matrix under a failing key-value backend, restart from the profile cache, a 2^62 class for count-like properties.',
+    note='Rate limiting by design is not a violation (only the first query of a fresh limited client is required when a rate parameter is mutated); 1 ns / 1 B values are legal positives; interface listeners are omitted from the base configuration. Seven recorded findings (five negative sizes rejected without naming the key, two 2^62 counts that panic on the first query); the parse-level findings (negative sizes rejected without naming the key) are recorded in known_findings.json.',
+    ref='2/C20',
 )
-CHECKS["C06"] = dict(
-    level="exploration",
-    technique="runtime monitoring: real listeners (UDP, TCP, DoT, DoQ, DoH POST/GET) warmed with recognisable traffic, then probed with short / count-inflated / mis-framed / segmented messages and back-to-back bursts; two oracles: warmed-vs-fresh-listener differential and an own-bytes reference (unpack exactly the bytes sent); real forward.UpstreamPlain against a scripted stub replying with cut / inflated / mis-framed replies; race detector",
-    text="About 13k warmed and 534 fresh probe observations, 10k overlap-burst responses and 1.8k upstream exchanges per quick run: an undecodable or incomplete message must never be answered with a question/records, every response must carry the ID and question of its own request and no bytes of the warming traffic or of another in-flight request, and Exchange must return an error or exactly the records present in the reply's own bytes.",
-    note="sync.Pool reuse is probabilistic: probes are repeated (R=8, part of the run under GOMAXPROCS=2); the own-bytes oracle does not depend on hitting a dirty buffer. DNSCrypt has no pooled read buffer in the repository and is not covered.",
-    ref="2/C06",
+CHECKS['C06'] = dict(
+    level='exploration',
+    technique='runtime monitoring: real listeners (UDP, TCP, DoT, DoQ, DoH POST/GET) warmed with recognisable traffic, then probed with short / count-inflated / mis-framed / segmented messages and back-to-back bursts; two oracles: warmed-vs-fresh-listener differential and an own-bytes reference (unpack exactly the bytes sent); real forward.UpstreamPlain against a scripted stub replying with cut / inflated / mis-framed replies; race detector',
+    text="About 13k warmed and 534 fresh probe observations, 10k overlap-burst responses and 1.8k upstream exchanges per quick run: an undecodable or incomplete message must never be answered with a question/records, every response must carry the ID and question of its own request and no bytes of the warming traffic or of another in-flight request, and Exchange must return an error or exactly the records present in the reply's own bytes. Extended: bind-to-device UDP path (real Manager on lo), pipeline-slot fault history, probes beyond the initial pool buffer size, handler reflects the decoded OPT.",
+    note='sync.Pool reuse is probabilistic: probes are repeated (R=8, part of the run under GOMAXPROCS=2); the own-bytes oracle does not depend on hitting a dirty buffer. DNSCrypt has no pooled read buffer in the repository and is not covered.',
+    ref='2/C06',
 )
